@@ -45,6 +45,7 @@ type item struct {
 	release string // now | reads:<k> | end
 	byXid   bool   // no room for the nonce option: the transaction id carries the nonce (high bit set)
 	dup     bool   // byte-identical copy of the previous datagram (same nonce: counted per copy)
+	nonUDP  bool   // DHCPv4: the connection reports a sender that is not a UDP address (an IP address, none): whether such a datagram is dispatched is not laid down, that the loop goes on is
 }
 
 type hrec struct {
@@ -304,6 +305,9 @@ func genItems(rng *rand.Rand, v6 bool) []item {
 					continue
 				}
 			}
+		}
+		if !v6 && it.valid && !it.dup && mode == "" && rng.IntN(25) == 0 {
+			it.nonUDP = true
 		}
 		if len(it.b) > 4096 { // larger than the servers' 4096-octet reads: cut by the read itself, which is not what C14 is about
 			i--
@@ -584,7 +588,14 @@ func runCase(r *mon.Rec, famName string, idx int) {
 		}()
 		// like a socket, the scripted conn hands out an address object of its own for every datagram read
 		from := &net.UDPAddr{IP: append(net.IP(nil), it.from.IP...), Port: it.from.Port, Zone: it.from.Zone}
-		ok := conn.InjectOr(sconn.Datagram{B: append([]byte{}, it.b...), From: from, Nonce: it.nonce, Class: it.class}, abort)
+		var fromAddr net.Addr = from
+		if it.nonUDP {
+			fromAddr = &net.IPAddr{IP: net.IP{10, 77, 0, byte(it.nonce)}}
+			if it.nonce%2 == 0 {
+				fromAddr = nil
+			}
+		}
+		ok := conn.InjectOr(sconn.Datagram{B: append([]byte{}, it.b...), From: fromAddr, Nonce: it.nonce, Class: it.class}, abort)
 		tm.Stop()
 		if !ok {
 			select {
@@ -654,7 +665,12 @@ func runCase(r *mon.Rec, famName string, idx int) {
 	expect := map[int]*item{}
 	copies := map[int]int{}
 	nvalid := 0
+	undecided := map[int]bool{}
 	for i := 0; i < fed; i++ {
+		if items[i].nonUDP {
+			undecided[items[i].nonce] = true
+			continue
+		}
 		if items[i].valid {
 			nvalid++
 			expect[items[i].nonce] = &items[i]
@@ -711,6 +727,9 @@ func runCase(r *mon.Rec, famName string, idx int) {
 	seen := map[int]int{}
 	for _, h := range recs {
 		seen[h.nonce]++
+		if undecided[h.nonce] {
+			continue
+		}
 		it := expect[h.nonce]
 		if it == nil {
 			bad("handler-for-undecodable", "handler invoked with a message (nonce %d) that corresponds to no decodable datagram read from the socket", h.nonce)
